@@ -237,7 +237,7 @@ def s2_accumulators(ctx):
 POS = V('@position')
 
 
-def linear_sum(value):
+def linear_sum(value, path=None):
     """value == c1*SUM(e1 for .. in positions) + c2*SUM(e2 ..) + ...  ->  (c1*e1 + c2*e2 + ... over one canonical position variable, iterables, filters)
     or None when the value is not a linear combination of sums (sum is linear; nothing else is assumed about it)."""
     r = T.rat(value)
@@ -248,6 +248,27 @@ def linear_sum(value):
         if len(m) != 1 or m[0][1] != 1:
             return None
         a = m[0][0]
+        if a[0] == 'sum' and path is not None:
+            # an accumulation loop `for x in it: acc += f(x)`: the same thing as sum(f(x) for x in it); a conditional contribution is a filter
+            lp = [e for e in path.flat_events() if e.kind == 'loop' and e.id == a[1]]
+            if len(lp) != 1 or not lp[0].is_for:
+                return None
+            it = lp[0].iter
+            el = ('elem', it, a[1])
+            is_items = it[0] == 'call' and it[1] == ('meth', 'items')
+            posv = ('sub', el, num(1)) if is_items else el
+            rep = lambda z: POS if z == posv else None
+            body = a[2]
+            if body[0] == 'ite':
+                if body[3] == ZERO:
+                    ifs.append(T.replace(body[1], rep))
+                    body = body[2]
+                elif body[2] == ZERO:
+                    ifs.append(T.replace(('not', body[1]), rep))
+                    body = body[3]
+            total = T.t_add(total, T.t_mul(('num', c), T.replace(body, rep)))
+            its.append(fmt(it))
+            continue
         if not (a[0] == 'call' and a[1] == ('ext', 'SUM') and len(a[2]) == 1):
             return None
         x = a[2][0]
@@ -265,7 +286,11 @@ def linear_sum(value):
 def s4_aggregates(ctx):
     """Portfolio.total_pnl / total_realised_pnl / total_unrealised_pnl are the sums of the per-position figures over every open position."""
     def no_props(caller, callee, depth):
-        return default_policy(caller, callee, depth) and not callee.is_property
+        if callee.is_property or depth > 5:
+            return False
+        # helpers of the handler / portfolio themselves (a shared totals() step, a lookup helper) are read through; the tabled total_* figures stay calls
+        own = callee.cls is not None and callee.cls.name in ('PositionHandler', 'Portfolio') and not callee.name.startswith('total_') and callee.name != '__init__'
+        return default_policy(caller, callee, depth) or own
     P = lambda a: A(POS, a)
     expected = {'total_pnl': [P('total_pnl'), T.t_add(P('realised_pnl'), P('unrealised_pnl'))],
                 'total_realised_pnl': [P('realised_pnl'), T.t_sub(P('total_pnl'), P('unrealised_pnl'))],
@@ -279,7 +304,7 @@ def s4_aggregates(ctx):
         if len(nps) != 1 or len(ps) != 1:
             ctx.undecided('C03.S4', '%s has one path' % qn, fn.site(), [cond_str(p) for p in ps][:4])
             continue
-        ls = linear_sum(nps[0].value) if nps[0].value != ZERO else (ZERO, [], [])
+        ls = linear_sum(nps[0].value, nps[0]) if nps[0].value != ZERO else (ZERO, [], [])
         if ls is None:
             ctx.undecided('C03.S4', '%s is a linear combination of sums over the positions' % qn, fn.site(), fmt(nps[0].value)[:200])
             continue
